@@ -206,17 +206,31 @@ def simple_special(chk):
         for pi, (path, out, obls, writes, cur) in enumerate(I.run_function(func, mk)):
             goal = to_bool_term(out.value) == spec(cur["obj"]) if out.kind == "ret" else z3.BoolVal(False)
             chk.add(Ob(func, "answer-is-the-identity-test-of-the-statement", f"p{pi}", path.hyps + class_axioms(), goal, {"outcome": out.kind}))
-    # isunresolvable: membership in the documented table (read from the source), by identity/equality
+    # isunresolvable: membership in the documented table (read from the source), by identity/equality; or a TypeVar;
+    # or a subscripted callable / class-as-value (typing.get_origin is collections.abc.Callable or type)
     func = f"{INSP}.isunresolvable"
     table = I.mods.resolve(INSP, "_UNRESOLVABLE")
+    I.builtin_models[typing.get_origin] = lambda I, path, a, k: SV(get_origin_v(to_val(a[0])))
 
     def mk(I, path):
         obj = path.fresh("obj")
+        cls_const(typing.TypeVar)
         return [SV(obj)], {}, {"obj": obj}
     for pi, (path, out, obls, writes, cur) in enumerate(I.run_function(func, mk)):
-        spec = z3.Or(*[cur["obj"] == _safe_val(x) for x in table])
+        obj = cur["obj"]
+        spec = z3.Or(*[obj == _safe_val(x) for x in table],
+                     sub(cls_of(obj), cls_const(typing.TypeVar)),
+                     get_origin_v(obj) == _safe_val(collections.abc.Callable), get_origin_v(obj) == _safe_val(type))
         goal = to_bool_term(out.value) == spec if out.kind == "ret" else z3.BoolVal(False)
-        chk.add(Ob(func, "true-exactly-for-the-documented-unresolvable-annotations", f"p{pi}", path.hyps, goal, {"outcome": out.kind}))
+        chk.add(Ob(func, "true-exactly-for-the-documented-unresolvable-annotations", f"p{pi}", path.hyps + class_axioms(), goal, {"outcome": out.kind}))
+    # ground: the forms the statement names are covered, resolvable annotations are not
+    from typelib.py import inspection
+    T = typing.TypeVar("T")
+    yes = [object, typing.Any, typing.Callable, collections.abc.Callable, typing.Callable[..., int], typing.Callable[[int], str],
+           collections.abc.Callable[[int], str], T, type, type[int], typing.Type, typing.Type[int], Ellipsis]
+    no = [int, str, list[int], dict[str, int], typing.Optional[int], typing.Literal[1], tuple[int, ...], type(None)]
+    bad = [repr(x) for x in yes if inspection.isunresolvable(x) is not True] + [repr(x) for x in no if inspection.isunresolvable(x) is not False]
+    chk.add(Ob(func, "type-variables-subscripted-callables-and-classes-as-values-are-unresolvable", "ground", [], z3.BoolVal(not bad), {"bad": bad}))
 
 
 def _safe_val(x):
